@@ -19,7 +19,9 @@ PROP = dict(
                        "Comdex.C17.chain_activation_needs_N_fresh_positive", "Comdex.C17.unconfigured_chain_only_switches_off",
                        "Comdex.C17.stale_full_window_not_wf", "Comdex.C17.stale_window_oob_counterexample",
                        "Comdex.C17.stale_window_early_activation_counterexample", "Comdex.C17.delete_by_script_keeps_windows",
-                       "Comdex.C17.chain_stale_counterexample"],
+                       "Comdex.C17.chain_stale_counterexample", "Comdex.C17.strict_readers_fail_closed",
+                       "Comdex.C17.readers_refuse_after_reconfigure", "Comdex.C17.stale_tolerant_readers_counterexample",
+                       "Comdex.C17.stale_tolerant_readers_answer_iff"],
     harness_tests=["TestC17", "TestC17Feed"],
     trusted_base=[KERNEL_TB, HARNESS_TB,
                   "Model/Twa.lean is hand-written from x/market/keeper/oracle.go:67-170 and x/market/abci.go:24-60; "
